@@ -22,6 +22,7 @@ class Wrapper(Contract):
     def x(self, c): return c.pre[self.obj + '.data']
     def requires(self, c): return self.dom(self.x(c))
     def value(self, c, j): return self.T(self.x(c), j)
+    def fvalue(self, c, j): return self.value(c, j)
     def ensures(self, c):
         x = self.x(c); r = c.retdata()
         fresh = c.ret.attrs['data'].base != c._names[self.obj + '.data']
@@ -316,3 +317,42 @@ class Abs(Contract):
     def ensures(self, c):
         r = c.retdata(); fresh = c.ret.attrs['data'].base != c._names['self.data']
         return [('result.data[d] = sign(x[0]) x[d]', c.forall(0, c.D, lambda j: r[j] == self.fvalue(c, j))), ('result is a new object', z3.BoolVal(bool(fresh)))]
+
+
+# ------------------------------------------------------------------------------------------------ composite elementary functions as methods
+def _WC(name, obj):
+    from . import composites_sym as CS
+    k = CS.REG['_' + name + '@allD']
+    def T(x, j, k=k):
+        from vc.engine import DER
+        return S.BFWF(x, k.fprime(x), DER(k.tag)(z3.IntVal(0), x[0]), j)
+    cls = type('WC_' + name, (Wrapper,), {'qual': 'UTPM.' + name, 'T': staticmethod(T), 'SIF': None, 'dom': staticmethod(lambda x, k=k: k.dom(x)), 'obj': obj, 'which': None,
+                                          'property_ids': ('C01', 'C14', 'C12')})
+    return register(cls)
+_WC('erf', 'x'); _WC('erfi', 'x'); _WC('logit', 'x'); _WC('expit', 'x'); _WC('log1p', 'self')
+
+
+@register
+class RPow(Contract):
+    """r ** x for a positive constant r:  exp(log(r) x)  (UTPM.__rpow__), a new object"""
+    file = 'algopy/utpm/utpm.py'; qual = 'UTPM.__rpow__'; objs = ('self',); arrays = ('self.data',); scalars = {'r': 'real'}; modifies = (); returns = 'any'
+    cfgs = {'float': {'r': 'real'}}; property_ids = ('C01', 'C02', 'C14', 'C12'); dataflow = True; timeout_ms = 8000; cex_D = ()
+    def requires(self, c): return [scalar_of(c, 'r').t > 0]
+    def ensures(self, c):
+        x = c.pre['self.data']; r = scalar_of(c, 'r').t; r_ = c.retdata(); i = z3.FreshInt('i!lam')
+        lx = z3.Lambda([i], S.np('log')(r) * x[i])
+        fresh = c.ret.attrs['data'].base != c._names['self.data']
+        return [('result.data[d] = EXP(log(r) x, d)', c.forall(0, c.D, lambda j: r_[j] == S.EXP(lx, j))), ('result is a new object', z3.BoolVal(bool(fresh)))]
+
+
+# ------------------------------------------------------------------------------------------------ classmethod forms of the ring operations
+def _CLS2(name, val, req=lambda c: []):
+    """UTPM.add(x, y) / sub / mul / div / multiply: `return x op y` -- through the operator's contract"""
+    cls = type('CLS_' + name, (OpUU,), {'qual': 'UTPM.' + name, 'objs': ('x', 'y'), 'arrays': ('x.data', 'y.data'), 'scalars': {'out': 'none'},
+                                        'cfgs': {'distinct': {'out': None}, 'same': {'out': None, 'alias': {'y.data': 'x.data'}}},
+                                        'value': lambda self, c, j: val(c.pre['x.data'], c.pre['y.data'], j), 'requires': lambda self, c: req(c),
+                                        'ensures': lambda self, c: [('result.data[d] = ring operation of R[t]/(t^D)', c.forall(0, c.D, lambda j: c.retdata()[j] == self.value(c, j))),
+                                                                    ('result is a new object', z3.BoolVal(bool(c.ret.attrs['data'].base not in (c._names['x.data'], c._names['y.data']))))]})
+    return register(cls)
+_CLS2('add', lambda x, y, j: x[j] + y[j]); _CLS2('sub', lambda x, y, j: x[j] - y[j]); _CLS2('mul', lambda x, y, j: S.CONV(x, y, j)); _CLS2('multiply', lambda x, y, j: S.CONV(x, y, j))
+_CLS2('div', lambda x, y, j: S.QUOT(x, y, j), lambda c: [c.pre['y.data'][0] != 0])
